@@ -52,6 +52,19 @@ def build_design(s, shape, gated, enw=1, en_src='input', late=False):
         info['gated_boxes'].append((name, box))
 
     q0 = s.wire('q0', w)
+    if shape == 'only-gated':
+        # every register of the design lives inside the gated block (the base domain owns no clockable at all)
+        e = s.wire('en', enw)
+        ins['en'] = e
+        o = s.wire('o', w)
+
+        def body(b):
+            m = b.wire('m', w)
+            Reg(b, 'g0', a, m)
+            Reg(b, 'g1', m, o)
+        box = D.Box(s, 'box', {'a': a, 'en': e}, {'o': o}, body)
+        gate(box, 'gck', e)
+        return info
     Reg(s, 'r0', a, q0)
 
     if shape in ('block', 'multibit', 'inside', 'fsm'):
@@ -350,7 +363,8 @@ def cfgs(tier):
     out.append(('block enable=combinational function of a register of the gated domain', {'shape': 'block', 'enw': 1, 'en_src': 'comb'}))
     out.append(('block enable=combinational function of a base-domain register', {'shape': 'block', 'enw': 1, 'en_src': 'combbase'}))
     out.append(('fsm enable=2-bit combinational function of a register of the gated domain', {'shape': 'fsm', 'enw': 2, 'en_src': 'comb'}))
-    for shape in ('block', 'ancestor', 'nested') if quick else ('block', 'fsm', 'ancestor', 'nested', 'three'):
+    out.append(('only-gated enable=input', {'shape': 'only-gated', 'enw': 1, 'en_src': 'input'}))
+    for shape in ('block', 'ancestor', 'nested', 'only-gated') if quick else ('block', 'fsm', 'ancestor', 'nested', 'three', 'only-gated'):
         out.append(('%s enable=input, drivers assigned after a first simulator was obtained and clocked' % shape,
                     {'shape': shape, 'enw': 1, 'en_src': 'input', 'late': True}))
     for k in range(4 if quick else 40):
